@@ -21,6 +21,7 @@ import z3
 from . import sym, solver
 from .sym import SymError
 from . import interp as I
+from . import modeb
 from . import npmodel as npm
 from .extract import Sources
 
@@ -204,6 +205,7 @@ class SymCtx:
         self.symbols = explorer.symbols
         sym._fact_sink[0] = path.add_fact
         sym.reset_axiom_state()
+        self.world.ctx = self
         self.vcs = []
         self.results = []
 
@@ -309,6 +311,11 @@ class SymCtx:
 
     def none_is(self, v):
         return v is None
+
+    def invariant(self, func_key, ordinal, inv, modifies):
+        """registers the inductive invariant of loop #ordinal (source order) of the repo function `func_key`:
+        inv(look, k) -> formula, look(name) reads a local of the function; `modifies` = locals assigned in the loop body"""
+        self.world.loop_invariants[(func_key, ordinal)] = dict(inv=inv, modifies=list(modifies))
 
     def stub(self, key, fn, note=None):
         self.world.stubs[key] = fn
@@ -464,6 +471,8 @@ class Explorer:
                 self.harness(ctx)
             except PathInfeasible:
                 status = "infeasible"
+            except modeb.PathEnd:
+                status = "ok"                      # preservation branch of a loop cut at its invariant
             except I.IRaise as r:
                 # an exception the harness did not expect: violation iff the path is feasible
                 status = "raised:" + type(r.exc).__name__
